@@ -125,6 +125,8 @@ class FuncAlias(Structured):
         out = {}
         for k in set(a) | set(b):
             va, vb = a.get(k), b.get(k)
+            if '[' in k and (va is None or vb is None):
+                continue            # an element place (`X[k]`) is known only if it was stored on both paths
             if va is None or vb is None:
                 d = self.default(k)
                 if d is None:
@@ -196,6 +198,8 @@ class FuncAlias(Structured):
             kind = {'potentials': 'cv', 'marginals': 'cv', 'domain': 'domain', 'cliques': 'list'}.get(e.attr)
             return Val(base.own, base.elem | base.own, kind)
         if isinstance(e, ast.Subscript):
+            if isinstance(e.value, ast.Name) and isinstance(e.slice, ast.Name) and '%s[%s]' % (e.value.id, e.slice.id) in st:
+                return st['%s[%s]' % (e.value.id, e.slice.id)]      # the element just stored under this very key
             base = self.val(e.value, st)
             self.val(e.slice, st)
             if base.kind == 'ndarray':
@@ -461,7 +465,7 @@ class FuncAlias(Structured):
     def assign_to(self, t, v, st, stmt, value_expr=None):
         if isinstance(t, ast.Name):
             st[t.id] = v
-            for k in [k for k in st if k.startswith(t.id + '.')]:
+            for k in [k for k in st if k.startswith(t.id + '.') or k.startswith(t.id + '[') or k.endswith('[%s]' % t.id)]:
                 del st[k]
         elif isinstance(t, (ast.Tuple, ast.List)):
             if value_expr is not None and isinstance(value_expr, (ast.Tuple, ast.List)) and len(value_expr.elts) == len(t.elts):
@@ -489,6 +493,10 @@ class FuncAlias(Structured):
             p = self.place(t.value)
             if p and p in st:
                 st[p] = Val(st[p].own, st[p].elem | v.own, st[p].kind, st[p].ekind if st[p].ekind == v.kind else None)
+            if isinstance(t.value, ast.Name) and isinstance(t.slice, ast.Name):
+                for k in [k for k in st if k.startswith(t.value.id + '[')]:
+                    del st[k]                                   # another key may denote the same element
+                st['%s[%s]' % (t.value.id, t.slice.id)] = v
 
     def on_assign(self, st, s):
         if s.value is None:
